@@ -630,14 +630,14 @@ def _effective(sites):
         fn = re.sub(r'(::\{closure#\d+\})+$', '', fn)
         cs = [c for c in callers.get(fn, []) if c['fn'] not in seen]
         if not cs or depth == 0:
-            return [frozenset(prep(g, fn) for g, _ in acc)]
+            return [frozenset(_abstract(canon(g)) for g, _ in acc)]
         out = []
         for c in cs:
             sub = {'arg%d' % (i + 1): a for i, a in enumerate(c.get('args') or [])}
             # texts in terms of the parameters of the function being left are rewritten in terms of the caller's (and stay rewritable further
             # up); texts that come out of a closure keep their own parameter names for good
             acc2 = [((_subst_args(g, sub), True) if (own and sub and not is_closure) else (g, own and not is_closure)) for g, own in acc]
-            acc2 += [(g, True) for g in c['guards'] if not _LOOP_HAS_NEXT.match(g)]
+            acc2 += [(_norm_elem(g, c['fn']), True) for g in c['guards'] if not _LOOP_HAS_NEXT.match(g)]
             out += up(c['fn'], acc2, depth - 1, seen | {fn})
         return out
     ms = []
@@ -646,7 +646,7 @@ def _effective(sites):
             continue          # a filter predicate whose conditions are carried by the sites behind the filter
         if v.get('kind') in ('E', 'R'):
             # one entry per distinct effective condition set of the site (how many call chains lead to the same set does not matter)
-            own = [(g, True) for g in v['guards'] if not _LOOP_HAS_NEXT.match(g)]
+            own = [(_norm_elem(g, v['fn']), True) for g in v['guards'] if not _LOOP_HAS_NEXT.match(g)]
             for eff in sorted({tuple(sorted(x)) for x in up(v['fn'], own, 10, frozenset())}):
                 ms.append((_abstract(_norm_elem(v['label'], v['fn'])), eff, k))
     return sorted(ms)
